@@ -45,8 +45,33 @@ def panicR : R α := fun _ => .panic
 def bindR (r : R α) (f : α → R β) : R β := fun b => (r b).bind (fun p => f p.1 p.2)
 def mapR (f : α → β) (r : R α) : R β := bindR r (fun a => pureR (f a))
 
+/-- split off exactly `n` bytes, walking the list once (no `length`: the driver runs this on long inputs) -/
+def splitN : Nat → Bytes → Option (Bytes × Bytes)
+  | 0, b => some ([], b)
+  | _+1, [] => none
+  | n+1, x :: xs => (splitN n xs).map (fun p => (x :: p.1, p.2))
+
+theorem splitN_eq (n : Nat) (b : Bytes) :
+    splitN n b = if n ≤ b.length then some (b.take n, b.drop n) else none := by
+  induction n generalizing b with
+  | zero => simp [splitN]
+  | succ n ih =>
+    cases b with
+    | nil => simp [splitN]
+    | cons x xs =>
+      simp only [splitN, ih, List.length_cons, Nat.add_le_add_iff_right, List.take_succ_cons, List.drop_succ_cons]
+      split <;> simp
+
 /-- `io.ReadFull` of exactly `n` bytes: all or error -/
-def takeN (n : Nat) : R Bytes := fun b => if n ≤ b.length then .ok (b.take n, b.drop n) else .err
+def takeN (n : Nat) : R Bytes := fun b =>
+  match splitN n b with
+  | some p => .ok p
+  | none => .err
+
+theorem takeN_def (n : Nat) (b : Bytes) :
+    takeN n b = if n ≤ b.length then .ok (b.take n, b.drop n) else .err := by
+  simp only [takeN, splitN_eq]
+  by_cases h : n ≤ b.length <;> simp [h]
 
 /-- run `elem` `n` times, collecting the results in order -/
 def decRep (elem : R α) : Nat → R (List α)
@@ -73,7 +98,7 @@ theorem mapR_eq_ok {r : R α} {f : α → β} {b : Bytes} {v : β} {rest : Bytes
 
 theorem takeN_eq_ok {n : Nat} {b : Bytes} {v rest : Bytes} :
     takeN n b = .ok (v, rest) ↔ n ≤ b.length ∧ v = b.take n ∧ rest = b.drop n := by
-  unfold takeN
+  rw [takeN_def]
   split
   · simp only [Outcome.ok.injEq, Prod.mk.injEq]
     constructor
@@ -84,6 +109,6 @@ theorem takeN_eq_ok {n : Nat} {b : Bytes} {v rest : Bytes} :
     · rintro ⟨h, _⟩; omega
 
 theorem takeN_append (c r : Bytes) : takeN c.length (c ++ r) = .ok (c, r) := by
-  simp [takeN]
+  simp [takeN_def]
 
 end FinProto
